@@ -43,13 +43,14 @@ inductive Thr where
   | at (n : Nat)
 deriving DecidableEq, Repr
 
-/-- the threshold computation of `Shared::freeze` (`expect`s are `panic`) -/
+/-- the threshold computation of `Shared::freeze` (`expect`s are `panic`; since the repair of F9 the
+epoch-number row names a main-chain epoch — `Props/C02` — so on a consistent store none of them fires) -/
 def threshold (s : FS) : Thr :=
   match s.v.m.curEpoch with
   | none => .panic
   | some ce =>
     if ce.number ≤ THRESHOLD_EPOCH then .idle else
-    match s.v.r.epochNum (ce.number + 1 - THRESHOLD_EPOCH) with
+    match s.v.m.epochNum (ce.number + 1 - THRESHOLD_EPOCH) with
     | none => .panic
     | some idx =>
       match s.v.r.epochExt idx with
@@ -140,6 +141,20 @@ def getBlock (s : FS) (id : Nat) : Ans Block :=
       | some fb => .some fb
       | none => .none
     else if s.body id then .some blk else .panic
+
+/-- `get_block(hash)` with the repair proposed for finding F17 (/verif/work/C10-fix-F17.diff): the
+freezer item is returned only if it is the block asked for; otherwise the kv rows are read -/
+def getBlockF17 (s : FS) (id : Nat) : Ans Block :=
+  if !s.hdr id then .none else
+  match s.v.r.bodies id with
+  | none => .none
+  | some blk =>
+    let kv : Ans Block := if s.body id then .some blk else .panic
+    if 0 < blk.number && blk.number < frozenNumber s then
+      match s.frozen[blk.number - 1]? with
+      | some fb => if fb.id = id then .some fb else kv
+      | none => .none
+    else kv
 
 def getHeader (s : FS) (id : Nat) : Option Block :=
   if s.hdr id then s.v.r.bodies id else none
